@@ -12,7 +12,7 @@ def main():
   from vf.props import c01  # pylint: disable=g-import-not-at-top
   out = []
   for item in job['items']:
-    out.append(c01.run_real(fedjax, item['case'], item['order'], 'pmap'))
+    out.append(c01.run_real(fedjax, item['case'], item['order'], 'pmap', loss=item.get('loss'), keys_seed=item.get('keys_seed', 0)))
   json.dump(out, sys.stdout)
 
 
